@@ -104,7 +104,7 @@ fn test_case_inner(case: &MpcCase) -> Result<CaseInfo, Fail> {
 
 pub fn run(tier: Tier, seed: u64) -> i32 {
     let ctx = Ctx::new("C01", tier, seed, "exploration");
-    ctx.set_rule("proptest: by-construction register circuits (reuse, NOT chains, x op x, outputs=inputs, dup outputs, zero-input parties; size classes incl. AND counts around the 1000-gate batch boundary, wide circuits with up to 160 outputs / 120 inputs, circuits with > 64Ki registers whose messages exceed 64 KiB) x uniform inputs x n in 2..5 x p_eval in 0..n x non-empty p_out subset x per-party tmp_dir x link capacity {inf,1,2} x schedule strategy; oracle = independent clear-text interpreter; non-trivial = >=1 AND gate or p_eval!=0 or evaluator not in p_out; distinct by hash of the full case");
+    ctx.set_rule("proptest: by-construction register circuits (reuse, NOT chains, x op x, outputs=inputs, dup outputs, zero-input parties; size classes incl. AND counts around the 1000-gate batch boundary and around 3100 (bucket-size threshold), wide circuits with up to 160 outputs / 120 inputs, circuits with > 64Ki registers whose messages exceed 64 KiB) x uniform inputs x n in 2..5 x p_eval in 0..n x non-empty p_out subset x per-party tmp_dir x link capacity {inf,1,2} x schedule strategy; oracle = independent clear-text interpreter; non-trivial = >=1 AND gate or p_eval!=0 or evaluator not in p_out; distinct by hash of the full case");
     ctx.assume("reliable per-pair FIFO channels (SimNet); engine coins are not seeded, the oracle is coin-independent");
     let small = CaseParams {
         circ: CircParams { n_min: 2, n_max: 5, max_gates: 40, ..Default::default() },
@@ -134,6 +134,11 @@ pub fn run(tier: Tier, seed: u64) -> i32 {
     if !ctx.stopped() {
         let regs = CaseParams { circ: CircParams::huge_regs(2, 3), all_scheds: false, caps: vec![0, 1], tmp: true };
         prop_search(&ctx, "huge_regs", tier.pick(12, 300), || gen_case(regs.clone()), test_case);
+    }
+    if !ctx.stopped() {
+        // AND counts around 3100, where the bucket size of the triple generation changes
+        let thr = CaseParams { circ: CircParams { n_min: 2, n_max: tier.pick(2, 3), max_gates: 6, bulk: vec![3099, 3100, 3101, 3200], bulk_prob: 255, ..Default::default() }, all_scheds: false, caps: vec![0], tmp: true };
+        prop_search(&ctx, "threshold", tier.pick(4, 48), || gen_case(thr.clone()), test_case);
     }
     if tier == Tier::Thorough && !ctx.stopped() {
         let huge = CaseParams {
